@@ -23,6 +23,22 @@ check("C13", "ratelimit",
       "(a failure must reproduce in three independent runs). Processing times of reconciliations are outside the property's quantifier.",
       "DESIGN.md 6 C13")
 
+DYN_TECH = ("TLA+ spec DynUpdate.tla (slot pairing, alignSlots, reload decision) model-checked by TLC against the property invariants; "
+            "TLC-generated update/fault behaviours and seeded random ones replayed on the real pipeline + simulated HAProxy; "
+            "every recorded update judged by TLC (TraceDynUpdate.tla)")
+DYN_NOTE = ("Trusted: TLC; harness/hasim (simulated HAProxy admin/master sockets, loader of the written *.cfg and crt-lists); "
+            "controller-runtime fake client. HAProxy's own parser/runtime is not run. Reloads succeed (failed reloads: C12).")
+check("C02", "dynupdate", DYN_TECH,
+      "Model checking of the transcribed dynamic-update algorithm within small bounds (3-4 targets, <=4 updates, every fault position), "
+      "bound to the code by exact conformance of slots/commands/reload decisions on thousands of replayed behaviours, and the property itself "
+      "(running table == table loaded from the files just written; any bad answer => reload) evaluated by TLC on every recorded update.",
+      DYN_NOTE, "DESIGN.md 6 C02")
+check("C11", "dynupdate", DYN_TECH,
+      "Same engine as C02; the invariants judged are NoNeedlessReload (endpoint-only change that fits the slots, commands OK => no reload), "
+      "NoopIsNoop (re-notified unchanged resources => no reload) and SlotsAfterReload (>= slots-min-free empty slots, count multiple of the increment), "
+      "over naming modes, cookie affinity, auth-url backends and certificate rotation.",
+      DYN_NOTE, "DESIGN.md 6 C11")
+
 NOT_BUILT = "check not built yet (planned, DESIGN.md section 6); no claim made until the check exists"
 
 
